@@ -238,6 +238,16 @@ type c15case struct {
 	sparse  bool // family S: rows without column c / v (line prefix "C15 S <bare>")
 	bare    bool // family S, ONE ROW PER MATCH: MEASURES also c AS bc, v AS bv (bare columns of the last row)
 	tag     string
+	// families T / W (c15w.go)
+	fam        string // line prefix after "C15 " ("T <values> " / "" ..)
+	pvals      []any  // T: the value of the partition column per partition index (c15absent = no key / nil)
+	nilSeed    uint64 // T: which events of the NULL partition carry an explicit nil instead of no key
+	wall       bool   // W: real pauses between events
+	withinText string // W: the WITHIN clause as written (WITHIN '100ms'), c.within = the same in ns
+	pauseMs    int    // W: length of one pause (> the sweep interval)
+	pauseEmits int    // W: pause after each of the first k events that reported a match
+	pauseAt    int    // W: pause after this event id as well (0 = none)
+	paused     []int  // W: the event ids after which run() slept
 }
 
 const c15classes = "abcde"
@@ -297,7 +307,9 @@ func (c *c15case) sql() string {
 		sb.WriteString("AFTER MATCH SKIP TO " + c15vars[c.skipVar] + " ")
 	}
 	sb.WriteString("PATTERN (" + c.pat.sql(true) + ") ")
-	if c.within > 0 {
+	if c.withinText != "" {
+		sb.WriteString(c.withinText)
+	} else if c.within > 0 {
 		sb.WriteString(fmt.Sprintf("WITHIN %d NS ", c.within))
 	}
 	var ds []string
@@ -338,6 +350,7 @@ func (c *c15case) run() (string, error) {
 	var mu sync.Mutex
 	var outs []string
 	bad := ""
+	emits := 0 // sink calls so far (family W pauses after an event that reported a match)
 	// ALL ROWS PER MATCH: one sink call carries the rows of the matches emitted by one event; the rows
 	// of a match are adjacent and share MATCH_NUMBER and partition. They are folded into the same
 	// observable (mn, first id, last id, count); count is forced to 0 (= not a run) when the ids are
@@ -356,6 +369,9 @@ func (c *c15case) run() (string, error) {
 	s.AddSyncSink(func(rs []map[string]any) {
 		mu.Lock()
 		defer mu.Unlock()
+		if len(rs) > 0 {
+			emits++
+		}
 		for _, r := range rs {
 			mn, ok1 := c15int(r["mn"])
 			if c.allRows {
@@ -408,8 +424,36 @@ func (c *c15case) run() (string, error) {
 	})
 	st := s.Stream()
 	st.VerifCepLiftGuards()
+	c.paused = nil
+	seenEmits, left := 0, c.pauseEmits
+	nilRng := NewRNG(c.nilSeed)
 	for i, r := range c.rows {
-		st.VerifCepFeed(r.event(i + 1))
+		ev := r.event(i + 1)
+		if c.pvals != nil { // family T: typed partition values
+			switch v := c.pvals[r.part].(type) {
+			case c15absent:
+				delete(ev, "p")
+				if nilRng.Intn(3) == 0 {
+					ev["p"] = nil
+				}
+			default:
+				ev["p"] = v
+			}
+		}
+		st.VerifCepFeed(ev)
+		if c.wall && i+1 < len(c.rows) { // family W: a real pause, longer than the sweep interval
+			mu.Lock()
+			e := emits
+			mu.Unlock()
+			if (e > seenEmits && left > 0) || c.pauseAt == i+1 {
+				if e > seenEmits {
+					left--
+				}
+				c.paused = append(c.paused, i+1)
+				c.pause()
+			}
+			seenEmits = e
+		}
 	}
 	s.Stop()
 	mu.Lock()
@@ -430,7 +474,14 @@ func (c *c15case) line(out string) string {
 	if w == 0 {
 		w = 3600000000000 // types.DefaultMatchWithin in ns
 	}
-	fam := ""
+	fam := c.fam
+	if c.wall {
+		at := "-"
+		if len(c.paused) > 0 {
+			at = strings.Trim(strings.Join(strings.Fields(fmt.Sprint(c.paused)), ","), "[]")
+		}
+		fam = fmt.Sprintf("W %dms@%s ", c.pauseMs, at)
+	}
 	if c.sparse {
 		fam = "S 0 "
 		if c.bare && !c.allRows {
@@ -615,7 +666,9 @@ func runC15(tier string, seed uint64, o *Out) error {
 	ncases, maxRows := 12000, 14
 	nk, maxPer, np3, np4 := 3000, 13, 40, 12
 	ns := 4000
+	nt, nw := 1500, 160
 	if tier == "thorough" {
+		nt, nw = 15000, 1200
 		ncases, maxRows = 150000, 16
 		nk, maxPer, np3, np4 = 20000, 14, 400, 100
 		ns = 40000
@@ -656,11 +709,41 @@ func runC15(tier string, seed uint64, o *Out) error {
 	for i := 0; i < ns; i++ {
 		cases = append(cases, c15sparse(srng, maxRows))
 	}
+	// T: one PARTITION BY column, values of different Go types with the same printed form
+	trng := NewRNG(seed)
+	trng.s = trng.Next() ^ 0xC157F9ED
+	for _, c := range c15tcorpus() {
+		cases = append(cases, c)
+	}
+	for i := 0; i < nt; i++ {
+		cases = append(cases, c15typed(trng, maxRows))
+	}
+	// W: real pauses longer than the sweep interval of the WITHIN sweeper (the cases sleep: own pool)
+	nwall := len(cases)
+	for _, c := range c15wcorpus() {
+		cases = append(cases, c)
+	}
+	for i := 0; i < nw; i++ {
+		cases = append(cases, c15wallclock(trng, maxRows))
+	}
 	lines := make([]string, len(cases))
 	errs := make([]error, len(cases))
 	var wg sync.WaitGroup
 	sem := make(chan struct{}, 8)
-	for i := range cases {
+	wsem := make(chan struct{}, 64)
+	for i := nwall; i < len(cases); i++ {
+		i := i
+		wg.Add(1)
+		go func() {
+			defer wg.Done()
+			wsem <- struct{}{}
+			defer func() { <-wsem }()
+			out, err := cases[i].run()
+			errs[i] = err
+			lines[i] = cases[i].line(out)
+		}()
+	}
+	for i := range cases[:nwall] {
 		i := i
 		wg.Add(1)
 		sem <- struct{}{}
